@@ -76,6 +76,10 @@ func runC06(c RTCase) (fails []vstat.Failure) {
 		}
 	}
 	for i, r := range c.Reqs {
+		if _, op := e.hostOf(r.Host); op == nil {
+			st.Class("default-port-origin-unavailable")
+			continue
+		}
 		x := e.refRoute(c.Cfg, r)
 		o := e.rtExchange(px, r, fmt.Sprintf("%d-%d", id, i))
 		key := func(clause string) string { return "C06:" + r.Kind + ":" + clause }
@@ -204,7 +208,10 @@ func classifyC06(c RTCase) (bool, string, []string) {
 }
 
 var propC06 = vstat.Prop[RTCase]{Name: "TestC06Credentials",
-	Gen: func(t *rapid.T) RTCase { return RTCase{Cfg: genRTConfig(t, true), Reqs: genRTReqs(t, true)} },
+	Gen: func(t *rapid.T) RTCase {
+		cfg := genRTConfig(t, true)
+		return RTCase{Cfg: cfg, Reqs: genRTReqs(t, true, cfg.MITM)}
+	},
 	Run: runC06, Classify: classifyC06}
 
 func TestC06Credentials(t *testing.T) { propC06.Check(t, st) }
